@@ -1,8 +1,10 @@
 """C17 configuration for bin/check."""
 
 CFG = {
-        "tier_a": ["UFSeq"],
-        "model_targets": ["UF/Ops.vo", "UF/ConcModel.vo"],
+        "tier_a": ["UFSeq",
+                   "UFConcFacts.uf_find_impl_fn", "UFConcFacts.uf_find_fn", "UFConcFacts.uf_merge_fn",
+                   "UFConcFacts.uf_same_set_fn", "UFConcFacts.uf_orderings"],
+        "model_targets": ["UF/Ops.vo", "UF/ConcModel.vo", "UF/AtomProg.vo"],
         "proof_targets": ["Props/C17.vo", "Props/C17c.vo"],
         "props_files": ["C17", "C17c"],
         "corr_is_violation": True,
@@ -11,11 +13,37 @@ CFG = {
                      "prefix": "cases_ufc", "timeout": 900}],
         "trusted": [
             "translator /verif/translator (Rust subset -> Gallina over Res; emitted gen/UFSeq.v is what the theorems are about)",
+            "translator/src/x_ufconc.rs: compiles the bodies of find_impl / find / merge / same_set of "
+            "union-find/src/concurrent/uf.rs (statement by statement: let/assignment, buf[i].load(), buf[i].cas(e,n), "
+            "Self::find_impl(buf,x), while/loop/if/match-on-cas/continue/return, cmp::min/max; the cfg(egglog_verif) "
+            "perturb hooks are skipped; anything else fails closed) into control-flow graphs gen/UFConcFacts.v "
+            "(uf_prog) over the instruction type of coq/UF/AtomProg.v, whose interpreter (sequentially consistent, "
+            "one atomic step = one load/CAS plus the local instructions up to the next one) is what the c17c_prog "
+            "theorems are about",
         ],
-        "theorem_backed": "concurrent union-find PROTOCOL (hand-written interleaving semantics, one step per load/CAS of find_impl/merge/same_set, sequentially consistent, any number of threads): parent[x]<=x, partition = closure of the merges that took effect, compression never changes it, representative = least id, linearization-point facts for find/same_set/union's effect; REFUTED with witness: union's returned parent can be a stale non-root (c17c_union_parent_stale_refuted, c17c_linearizable_refuted). Sequential UnionFind (translated from union-find/src/lib.rs): no panic, termination, same-root iff connected, representative = least id, path halving preserves the partition, for all operation sequences",
-        "link_only": "concurrent union-find on the real code: memory ordering (Acquire/Release vs SC), Buffer growth under ReadOptimizedLock, real interleavings - stress only (final-state correspondence with the translated sequential union-find + interval-based necessary conditions of linearizability on timestamped histories)",
+        "theorem_backed": "concurrent union-find: the ATOMIC PROGRAMS of find_impl/find/merge/same_set are REGENERATED from uf.rs "
+                          "(gen/UFConcFacts.v uf_prog); c17c_prog_start_is_model + c17c_prog_step_is_model: the hand-written "
+                          "interleaving semantics (one step per load/CAS) is exactly the interpreter of the regenerated programs "
+                          "(same parent array, same responses, corresponding program counters, never stuck); "
+                          "c17c_prog_refines_model, c17c_prog_inv, c17c_prog_rep_min, c17c_prog_response_ok: for any number of "
+                          "threads running the regenerated programs under any interleaving (sequentially consistent): "
+                          "parent[x]<=x, partition = closure of the merges that returned, representative = least id, "
+                          "linearization-point facts; c17c_prog_union_parent_stale_refuted: U1 reproduced on the regenerated "
+                          "program; c17c_prog_orderings: load=Acquire, store=Release, cas=AcqRel/Acquire (regenerated from "
+                          "atomic_int.rs, all three impls); c17c_prog_need: every operation demands capacity max(arguments)+1 "
+                          "from Buffer::with_access. Hand model (c17c_inv, c17c_compress_preserves, c17c_link_effect, c17c_rep_min, "
+                          "c17c_response_ok_partial, c17c_same_false_lin): as before; REFUTED with witness: union's returned "
+                          "parent can be a stale non-root (c17c_union_parent_stale_refuted, c17c_linearizable_refuted). "
+                          "Sequential UnionFind (translated from union-find/src/lib.rs): no panic, termination, same-root iff "
+                          "connected, representative = least id, path halving preserves the partition, for all operation sequences",
+        "link_only": "concurrent union-find on the real code: the memory model (the regenerated orderings are pinned as facts, "
+                     "but the interpreter is sequentially consistent), Buffer growth under ReadOptimizedLock (with_access / "
+                     "resize protocol; only the demanded capacity is regenerated), reset/deep_copy, real interleavings - stress "
+                     "only (final-state correspondence with the translated sequential union-find + interval-based necessary "
+                     "conditions of linearizability on timestamped histories)",
         "assumptions": [
             "ids are modelled as unbounded nat (u32/usize exhaustion not modelled)",
             "Vec indexing out of bounds is modelled as Panic and proved not to occur",
+            "concurrent half: sequentially consistent memory; the parent array is unbounded (growth not modelled)",
         ],
     }
